@@ -169,3 +169,209 @@ def explore_ties(run, max_dev: int = 1, with_reverse: bool = True, cap: int = 64
                     finally:
                         CTL.end()
                     yield {f"{a[0]}.{a[1]}": pa, f"{b[0]}.{b[1]}": pb}, r
+
+
+# ---------------------------------------------------------------------------------------------
+# N2  symbol numbering.  _compress_df feeds TraceSymbolTable.add_symbols a *set*; its iteration
+#     order is the interpreter's string-hash order (PYTHONHASHSEED).  The seam hands the set over in
+#     an explorer-chosen order; enumerating all n! orders is a superset of what any seed can produce.
+class SymbolOrderController:
+    def __init__(self) -> None:
+        self.active = False
+        self.plan: Dict[Any, Any] = {}
+        self.seen: List[Tuple[str, ...]] = []
+
+    def begin(self, plan=None) -> None:
+        """plan: {sorted-symbol-tuple: permutation (list of positions into the sorted tuple)} | 'reverse' | None"""
+        self.active = True
+        self.plan = plan or {}
+        self.seen = []
+
+    def end(self) -> None:
+        self.active = False
+
+
+SYM = SymbolOrderController()
+_ORIG_ADD = None
+
+
+def install_symbol_seam() -> None:
+    global _ORIG_ADD
+    from hta.common.trace_symbol_table import TraceSymbolTable
+
+    if _ORIG_ADD is not None:
+        return
+    _ORIG_ADD = TraceSymbolTable.add_symbols
+
+    def add_symbols(self, symbols):
+        if SYM.active and isinstance(symbols, (set, frozenset)):
+            base = tuple(sorted(symbols))
+            SYM.seen.append(base)
+            if SYM.plan == "reverse":
+                symbols = list(base[::-1])
+            else:
+                perm = SYM.plan.get(base) if isinstance(SYM.plan, dict) else None
+                symbols = [base[i] for i in perm] if perm is not None else list(base)
+        return _ORIG_ADD(self, symbols)
+
+    TraceSymbolTable.add_symbols = add_symbols
+
+
+# ---------------------------------------------------------------------------------------------
+# N3  worker scheduling.  A virtual multiprocessing module: Pool.map & friends run the *real*
+#     callables in this process, each virtual worker on its own deep copy of the callable (a forked
+#     worker's private copy), in an explorer-chosen completion order; a Manager().Queue() whose
+#     content is an explorer-chosen interleaving of the workers' put sequences.
+import copy as _copy
+
+
+class VirtualQueue:
+    def __init__(self) -> None:
+        self.items: List[Any] = []
+
+    def put(self, x) -> None:
+        self.items.append(x)
+
+    def get(self):
+        return self.items.pop(0)
+
+    def empty(self) -> bool:
+        return not self.items
+
+
+class _Recorder:
+    """stands in for the shared queue inside one virtual worker: records that worker's puts"""
+
+    def __init__(self) -> None:
+        self.items: List[Any] = []
+
+    def put(self, x) -> None:
+        self.items.append(x)
+
+
+class VirtualMP:
+    """drop-in for the `mp` name of an hta module.
+    schedule: for Pool.map a permutation of task indices (completion order) + number of workers;
+              for queue interleavings a list of worker indices (which worker's next put goes first)."""
+
+    def __init__(self, completion=None, workers=None, merge=None) -> None:
+        self.completion = completion
+        self.workers = workers
+        self.merge = merge
+        self.log: Dict[str, Any] = {}
+        self._queues: List[VirtualQueue] = []
+
+    def cpu_count(self) -> int:
+        return 16
+
+    def Manager(self):
+        outer = self
+
+        class _M:
+            def Queue(self_inner):
+                q = VirtualQueue()
+                outer._queues.append(q)
+                return q
+
+        return _M()
+
+    def get_context(self, kind="fork"):
+        return self
+
+    def Pool(self, n=None):
+        return _VPool(self, n or 1)
+
+
+class _VPool:
+    def __init__(self, vmp: VirtualMP, n: int) -> None:
+        self.vmp = vmp
+        self.n = n
+
+    def __enter__(self):
+        return self
+
+    def __exit__(self, *a):
+        return False
+
+    def close(self):
+        pass
+
+    def join(self):
+        pass
+
+    def terminate(self):
+        pass
+
+    def _run(self, fn, tasks):
+        vmp = self.vmp
+        tasks = list(tasks)
+        order = list(vmp.completion) if vmp.completion is not None else list(range(len(tasks)))
+        if sorted(order) != list(range(len(tasks))):
+            raise RuntimeError(f"N3 replay divergence: {len(tasks)} tasks, schedule {order}")
+        nw = min(self.n, vmp.workers or self.n, len(tasks)) or 1
+        vmp.log["tasks"] = len(tasks)
+        vmp.log["pool_size"] = self.n
+        shared = [q for q in vmp._queues if getattr(fn, "queue", None) is q]
+        worker_fn = []
+        recs = []
+        for w in range(nw):
+            f = _copy.deepcopy(fn) if not shared else _copy.copy(fn)
+            if shared:
+                rec = _Recorder()
+                f.queue = rec
+                recs.append(rec)
+            worker_fn.append(f)
+        results: Dict[int, Any] = {}
+        done_order = []
+        # tasks are dealt to workers round-robin in completion order: the k-th task to finish ran on worker k % nw
+        for k, ti in enumerate(order):
+            results[ti] = worker_fn[k % nw](tasks[ti])
+            done_order.append(ti)
+        if shared:
+            seqs = [list(r.items) for r in recs]
+            merge = vmp.merge
+            if merge is None:
+                merge = [w for w, s in enumerate(seqs) for _ in s]
+            pos = [0] * len(seqs)
+            if sorted(merge) != sorted(w for w, s in enumerate(seqs) for _ in s):
+                raise RuntimeError("N3 replay divergence: merge schedule does not match the put sequences")
+            for w in merge:
+                shared[0].put(seqs[w][pos[w]])
+                pos[w] += 1
+            vmp.log["put_seqs"] = seqs
+        return results, done_order
+
+    def map(self, fn, tasks, chunksize=None):
+        res, _ = self._run(fn, tasks)
+        return [res[i] for i in range(len(res))]
+
+    def imap(self, fn, tasks, chunksize=None):
+        return iter(self.map(fn, tasks))
+
+    def imap_unordered(self, fn, tasks, chunksize=None):
+        res, done = self._run(fn, tasks)
+        return iter([res[i] for i in done])
+
+    def starmap(self, fn, tasks, chunksize=None):
+        return self.map(lambda a: fn(*a), tasks)
+
+
+def merges(lengths: List[int]):
+    """all interleavings of sequences with the given lengths, as lists of sequence indices"""
+    total = sum(lengths)
+    out: List[List[int]] = []
+
+    def rec(rem, acc):
+        if len(acc) == total:
+            out.append(list(acc))
+            return
+        for i, r in enumerate(rem):
+            if r:
+                rem[i] -= 1
+                acc.append(i)
+                rec(rem, acc)
+                acc.pop()
+                rem[i] += 1
+
+    rec(list(lengths), [])
+    return out
